@@ -3,7 +3,7 @@
    sampler: each pixel receives the mean of f over ITS OWN s_i^2 held points, whatever the sampler's uniform sub-pixel
    centres are; and the decorator on a Grid2D whose values are not the pixel centres of its mask. *)
 From Coq Require Import ZArith Reals Lra Lia List Bool Arith.
-From PAV Require Import Base.NumOps Base.Res Base.Sum Model.C09 Proofs.C09.
+From PAV Require Import Base.NumOps Base.Res Base.Sum Model.C09 Proofs.C09 Model.C09h Proofs.C09h.
 Import ListNotations.
 Local Open Scope R_scope.
 
@@ -57,4 +57,17 @@ Proof.
     unfold spec_held, mean, sumT. cbn. f_equal. lra.
   - rewrite via_func_is_block_means; [|split; [reflexivity|repeat constructor]|split; cbn; lra].
     unfold spec_via_func, spec_centres, block, sub_centre, pixel_centre, mean, sumT, half, two, one. cbn. f_equal. lra.
+Qed.
+
+(* ONE over sampler, any history of cached reads, binnings, user functions and Grid2DOverSampled calls (no edit of the map):
+   the k-th step, if it is a decorated call with a Grid2DOverSampled holding [held], returns the per-pixel means of f over
+   [held] -- whatever was read, cached or held before *)
+Theorem sampler_history_held_step m (ps og : R * R) ss (ops : list (@sop ROps)) k held f :
+  shape_okP m ss ->
+  forallb (fun op => match op with SEdit _ _ => false | _ => true end) ops = true ->
+  nth_error ops k = Some (@SHeld ROps held f) -> length held = list_sum (map (fun s => (s * s)%nat) ss) ->
+  nth_error (@srun ROps (@sampler_new ROps m ps og ss) ops) k = Some (@RNums ROps (@spec_held ROps f ss held)).
+Proof.
+  intros Hsh Hne Hk Hl. rewrite sampler_history_no_edit by exact Hne.
+  rewrite (map_nth_error _ _ _ Hk). cbn [spure]. rewrite decorator_oversampled_grid_uses_held_points by assumption. reflexivity.
 Qed.
